@@ -93,7 +93,7 @@ impl Prop for C06 {
         let (style, trace) = gen_trace(rng, head_len, total, &toks, &opts);
         let boundary_fault = rng.chance(1, 8);
         let n_sizes = rng.usize(0, 4);
-        let payload_buf_sizes = (0..n_sizes).map(|_| *rng.pick(&[1u32, 2, 7, 64, 8192, 65536])).collect();
+        let payload_buf_sizes = (0..n_sizes).map(|_| *rng.pick(&[1u32, 2, 7, 64, 4096, 8191, 8192, 8193, 65536])).collect();
         Case {
             stream,
             payload,
